@@ -92,9 +92,9 @@ func Outline(k int) []Contour {
 // ---------------------------------------------------------------------------
 // hint configurations (all need an integer side bearing)
 
-const NumHintConfigs = 6
+const NumHintConfigs = 7
 
-var HintName = [NumHintConfigs]string{"none", "h", "v", "both", "stem3", "ghost"}
+var HintName = [NumHintConfigs]string{"none", "h", "v", "both", "stem3", "ghost", "repeated"}
 
 func applyHints(g *Glyph, k int) {
 	switch k {
@@ -114,6 +114,11 @@ func applyHints(g *Glyph, k int) {
 	case 5:
 		g.HStems = []Stem{{700, 680}, {21, 0}} // ghost stems: widths -20 and -21
 		g.VStems = []Stem{{-40, 60}}
+	case 6:
+		// the same stem declared more than once (as fonts that re-declare
+		// their hints after a hint replacement do): every declaration counts
+		g.HStems = []Stem{{0, 20}, {50, 70}, {0, 20}, {90, 100}}
+		g.VStems = []Stem{{10, 40}, {10, 40}}
 	default:
 		panic("no such hint config")
 	}
